@@ -369,10 +369,76 @@ let c14 (payload : string) : string =
     (match s'.applied with Some x -> string_of_int x | None -> "none")
   | _ -> "bad"
 
+let show_u64 (x : n) : string =
+  match x with
+  | N0 -> "0"
+  | Npos p -> (let rec go p = match p with XH -> 1L | XO q -> Int64.mul 2L (go q) | XI q -> Int64.add 1L (Int64.mul 2L (go q)) in
+               Printf.sprintf "%Lu" (go p))
+
+(* ---------------- C04 / C07: server dispatch ---------------- *)
+let c04 (payload : string) : string =
+  (* events: R:conn:rid:seq:path:meth:ser:hb:ow:target:codec:dec:h:C  |  D:rid ; names are interned by position *)
+  let toks = split_on ' ' payload in
+  let b s = (s = "1") in
+  let tbl : (int, (string * string * string * string * string * int)) Hashtbl.t = Hashtbl.create 16 in
+  (* rid -> (target, codec, dec, h, pathname/methname, C) *)
+  let names : (int, string) Hashtbl.t = Hashtbl.create 16 in
+  let intern =
+    let t : (string, int) Hashtbl.t = Hashtbl.create 16 in
+    fun s -> (match Hashtbl.find_opt t s with Some i -> i | None ->
+      let i = Hashtbl.length t + 1 in Hashtbl.add t s i; Hashtbl.add names i s; i) in
+  let evs = List.map (fun t -> match String.split_on_char ':' t with
+    | ["R"; conn; rid; seq; path; meth; ser; hb; ow; target; codec; dec; h; c] ->
+      let ridi = int_of_string rid in
+      Hashtbl.replace tbl ridi (target, codec, dec, h, path ^ "." ^ meth, int_of_string c);
+      CRead (nat_of_int (int_of_string conn), nat_of_int ridi,
+             { q_seq = n_of_dec seq; q_path = nat_of_int (intern path); q_meth = nat_of_int (intern meth);
+               q_ser = n_of_dec ser; q_hb = b hb; q_oneway = b ow; q_args = nat_of_int ridi })
+    | ["D"; rid] -> CDone (nat_of_int (int_of_string rid))
+    | _ -> failwith ("event " ^ t)) toks in
+  let find_req (args : nat) = Hashtbl.find tbl (int_of_nat args) in
+  (* the section variables, given pointwise by the case line (keyed by the args id = rid) *)
+  let by_pm : (int * int, string) Hashtbl.t = Hashtbl.create 16 in
+  List.iter (fun e -> match e with
+    | CRead (_, rid, q) -> let (target, _, _, _, _, _) = Hashtbl.find tbl (int_of_nat rid) in
+      Hashtbl.replace by_pm (int_of_nat q.q_path, int_of_nat q.q_meth) target
+    | _ -> ()) evs;
+  let find p m = (match Hashtbl.find_opt by_pm (int_of_nat p, int_of_nat m) with
+    | Some "router" -> TRouter | Some "nosvc" -> TNoService | Some "nometh" -> TNoMethod
+    | Some "func" -> TFunction | _ -> TMethod) in
+  let codec_ok (ser : n) = (int_of_n ser <> 9) in
+  let cur_args = ref O in
+  let decodable _ (args : nat) = (let (_, _, dec, _, _, _) = find_req args in dec = "1") in
+  let handler _ _ (args : nat) = (let (_, _, _, h, _, _) = find_req args in
+    let id = nat_of_int (int_of_string (String.sub h 1 (String.length h - 1))) in
+    match h.[0] with 'r' -> HReply args | 'f' -> HFail id | _ -> HPanic id) in
+  ignore cur_args;
+  let st = crun find codec_ok decodable handler cinit evs in
+  let show_err e = (match e with
+    | None -> "-" | Some (XExact t) -> "text:" ^ string_of_int (int_of_nat t)
+    | Some (XPanic v) -> "panic:" ^ string_of_int (int_of_nat v)
+    | Some (XPanicExact v) -> "text:" ^ string_of_int (int_of_nat v)
+    | Some (XNoService _) -> "nosvc" | Some (XNoMethod _) -> "nometh"
+    | Some (XDecode _) -> "decode" | Some (XNoCodec _) -> "nocodec") in
+  let show_f (f : sresp) =
+    let pl = if f.r_hb then "echo"
+      else if f.r_status = SError then "-"
+      else (let (_, _, _, _, _, c) = Hashtbl.find tbl (int_of_nat f.r_payload) in
+            Printf.sprintf "id%d=%d" (int_of_nat f.r_payload) c) in
+    Printf.sprintf "%s/%s.%s/%d/%s/%s/%s" (show_u64 f.r_seq)
+      (Hashtbl.find names (int_of_nat f.r_path)) (Hashtbl.find names (int_of_nat f.r_meth)) (int_of_n f.r_ser)
+      (if f.r_status = SError then "error" else "normal") (show_err f.r_err) pl in
+  let conns = List.sort_uniq compare (List.filter_map (fun e -> match e with CRead (c, _, _) -> Some (int_of_nat c) | _ -> None) evs) in
+  let per = List.map (fun c ->
+    Printf.sprintf "c%d=[%s]" c (String.concat ";" (List.filter_map (fun (c', f) -> if int_of_nat c' = c then Some (show_f f) else None) st.written))) conns in
+  let inv = List.sort compare (List.map (fun ((_, _), a) -> int_of_nat a) st.invoked) in
+  Printf.sprintf "%s inv=[%s]" (String.concat " " per) (String.concat "," (List.map string_of_int inv))
+
 let () =
   let prop = Sys.argv.(1) in
   let f = match prop with
     | "C12" -> c12
+    | "C04" | "C07" -> c04
     | "C14" -> c14
     | "C17" -> c17
     | "C10" -> c10
